@@ -72,7 +72,7 @@ def run(tier):
     rep.assumptions = ["inputs are NUL-terminated strings", "vendored miniz.c is compiled without -fsanitize=alignment",
                        "leak detection is off (leaks are outside the statement)"]
     ex = exes()
-    QUICK = ["q_inline2", "q_lines2", "q_macro1", "q_extsub", "q_lang", "q_meta", "q_critic", "q_critic_range", "q_readers", "q_zipmut", "q_tofile", "q_engine_reuse"]
+    QUICK = ["q_inline2", "q_lines2", "q_macro1", "q_extsub", "q_lang", "q_meta", "q_critic", "q_critic_range", "q_readers", "q_zipmut", "q_deep", "q_tofile", "q_engine_reuse"]
     # the thorough plan is split between the two allocator modes (each level runs in one of them; the quick levels run in both)
     THOROUGH = {"asan": QUICK + ["t_inline2", "t_critic", "t_critic_range", "t_readers", "t_macro2"],
                 "asan-nopool": QUICK + ["t_lines3", "t_extsub", "t_inline3", "t_lines4"]}
